@@ -3,6 +3,8 @@ package props
 import (
 	"time"
 
+	"github.com/zitadel/saml/pkg/provider/key"
+
 	"verif/harness/internal/msg"
 	"verif/harness/internal/obs"
 	"verif/harness/internal/sched"
@@ -54,6 +56,16 @@ func cbConcWorld() (*world.World, []cbSession) {
 		mk("S2-carol-post-spA-same-request-id-as-S0", "app-a", a.EntityID, msg.BindPost, "https://sp-a.example/acs/post2", "_orig-s0", "relay-s2", "idp.example", carol),
 		mk("S3-pending-spB", "app-b", b.EntityID, msg.BindPost, "https://sp-b.example/acs/post", "_orig-s3", "relay-s3", "other.example:8443", nil),
 	}
+	// the storage serves two tenants: requests that reach the provider as other.example:8443 belong to a tenant with its own
+	// response signing key and its own user directory (the user id u-alice names another person there)
+	aliceB := &world.User{ID: "u-alice", Username: "alice-of-tenant-b", Email: "alice@tenant-b.example", Surname: "Tenant-B"}
+	w.Store.Tenants = map[string]*world.Tenant{cfg.Issuer("other.example:8443"): {
+		RespKey: &key.CertificateAndKey{Certificate: world.SPB.DER, Key: world.SPB.RSA},
+		Users:   map[string]*world.User{"u-alice": aliceB},
+	}}
+	s4 := mk("S4-user-id-of-S0-in-tenant-B-post-spB", "app-b", b.EntityID, msg.BindPost, "https://sp-b.example/acs/post", "_orig-s4", "relay-s4", "other.example:8443", alice)
+	s4.T.User = aliceB
+	ss = append(ss, s4)
 	ss = append(ss, cbSession{Name: "unknown-id", T: &cbTruth{Cfg: cfg, Host: "idp.example", StoredID: "no-such-id"}})
 	return w, ss
 }
@@ -63,43 +75,57 @@ func cbConcWorld() (*world.World, []cbSession) {
 func cbConcScenarios(judge func(w *world.World, s cbSession, rep *world.Reply, m *obs.Msg) []string) []concScenario {
 	_, proto := cbConcWorld()
 	var out []concScenario
-	for i := range proto {
-		for j := i; j < len(proto); j++ {
-			i, j := i, j
-			var cur []cbSession
-			out = append(out, concScenario{
-				Name: "callback(" + proto[i].Name + ") || callback(" + proto[j].Name + ")",
-				Build: func() (*world.World, []func() *world.Reply) {
-					w, ss := cbConcWorld()
-					cur = []cbSession{ss[i], ss[j]}
-					return w, []func() *world.Reply{
-						func() *world.Reply { return callbackReq(w, cur[0].T.Host, cur[0].T.StoredID) },
-						func() *world.Reply { return callbackReq(w, cur[1].T.Host, cur[1].T.StoredID) },
-					}
-				},
-				Judge: func(w *world.World, reps []*world.Reply, _ *sched.Exec) []concFinding {
-					var fs []concFinding
-					ids := map[string]int{}
-					for t, rep := range reps {
-						if rep.Panic != "" {
-							continue // C09's matter
+	// prefix -1: the two callbacks meet a fresh provider; prefix k: callback(k) was answered before (what a finished callback
+	// of ANOTHER application / tenant left behind is there when the two concurrent ones arrive)
+	for _, prefix := range []int{-1, 0, 1} {
+		for i := range proto {
+			for j := i; j < len(proto); j++ {
+				i, j, prefix := i, j, prefix
+				if prefix >= 0 && (!proto[i].Done || !proto[j].Done) {
+					continue // with a prefix only pairs of completed sessions (the others are covered without)
+				}
+				var cur []cbSession
+				name := "callback(" + proto[i].Name + ") || callback(" + proto[j].Name + ")"
+				if prefix >= 0 {
+					name = "callback(" + proto[prefix].Name + ") ; " + name
+				}
+				out = append(out, concScenario{
+					Name: name,
+					Build: func() (*world.World, []func() *world.Reply) {
+						w, ss := cbConcWorld()
+						if prefix >= 0 {
+							callbackReq(w, ss[prefix].T.Host, ss[prefix].T.StoredID)
 						}
-						m := obs.Decode(rep)
-						for _, c := range judge(w, cur[t], rep, m) {
-							fs = append(fs, concFinding{Clause: c, Thread: t, Detail: cur[t].Name + ": " + obs.Describe(rep, m)})
+						cur = []cbSession{ss[i], ss[j]}
+						return w, []func() *world.Reply{
+							func() *world.Reply { return callbackReq(w, cur[0].T.Host, cur[0].T.StoredID) },
+							func() *world.Reply { return callbackReq(w, cur[1].T.Host, cur[1].T.StoredID) },
 						}
-						if r := m.Response(); r != nil && m.Success() {
-							for _, id := range []string{r.A("ID"), r.Child("Assertion").A("ID")} {
-								if prev, dup := ids[id]; dup && prev != t {
-									fs = append(fs, concFinding{Clause: "two-concurrent-replies-share-a-message-id", Thread: t, Detail: id})
+					},
+					Judge: func(w *world.World, reps []*world.Reply, _ *sched.Exec) []concFinding {
+						var fs []concFinding
+						ids := map[string]int{}
+						for t, rep := range reps {
+							if rep.Panic != "" {
+								continue // C09's matter
+							}
+							m := obs.Decode(rep)
+							for _, c := range judge(w, cur[t], rep, m) {
+								fs = append(fs, concFinding{Clause: c, Thread: t, Detail: cur[t].Name + ": " + obs.Describe(rep, m)})
+							}
+							if r := m.Response(); r != nil && m.Success() {
+								for _, id := range []string{r.A("ID"), r.Child("Assertion").A("ID")} {
+									if prev, dup := ids[id]; dup && prev != t {
+										fs = append(fs, concFinding{Clause: "two-concurrent-replies-share-a-message-id", Thread: t, Detail: id})
+									}
+									ids[id] = t
 								}
-								ids[id] = t
 							}
 						}
-					}
-					return fs
-				},
-			})
+						return fs
+					},
+				})
+			}
 		}
 	}
 	return out
